@@ -140,7 +140,11 @@ def env_grid(texts, rng: random.Random, limit=48):
     extra_sets = [set()] + [set(c) for r in (1, 2) for c in itertools.combinations(extras_mentioned, r)]
     for _ in range(limit):
         x, y, z = rng.choice(pv_candidates)
-        env = {"python_full_version": f"{x}.{y}.{z}", "python_version": f"{x}.{y}",
+        full = f"{x}.{y}.{z}"
+        if rng.random() < 0.08:
+            # a pre-release interpreter (3.13.0a1, 3.9.0rc1): a valid version; PEP 440's exclusion rules then apply to the CANDIDATE
+            full = f"{x}.{y}.{z}" + rng.choice(["a1", "b2", "rc1"])
+        env = {"python_full_version": full, "python_version": f"{x}.{y}",
                "platform_release": rng.choice(REL + ["5.4.1", "6.1.0"]),
                "platform_version": "#1 SMP", "implementation_version": "%d.%d.%d" % rng.choice(all_candidates),
                "platform_python_implementation": "CPython"}
